@@ -76,9 +76,10 @@ Definition mm_shufflehi_epi16 (a : reg) (imm : N) : reg :=
     byte [mask[j] & 15] of [a] *)
 Definition mm_shuffle_epi8 (a m : reg) : reg :=
   map (fun k => if N.testbit k 7 then 0 else nth (N.to_nat (N.land k 15)) a 0) m.
-(** [palignr]: bytes [n .. n+15] of the 32-byte value whose low half is [b] *)
+(** [palignr]: bytes [n .. n+15] of the 32-byte value whose low half is [b], zeros beyond it
+    (so [n >= 32] gives zero) *)
 Definition mm_alignr_epi8 (a b : reg) (n : nat) : reg :=
-  firstn 16 (skipn n (b ++ a ++ repeat 0 16)).
+  firstn 16 (skipn n (b ++ a) ++ repeat 0 16).
 Fixpoint interleave (a b : list N) : list N :=
   match a, b with
   | x :: a', y :: b' => x :: y :: interleave a' b'
